@@ -1,8 +1,10 @@
 """C14 — resume handlers run once per object per operator process.
 
-Model: lean/Kopf/Model/C14_Resume.lean = operator memory flags + C05 cause detection + gate + C02 cycle.
+Model: lean/Kopf/Model/C14_Resume.lean = operator memory flags (tri-state `noticed_by_listing` since /repo 755fd2f) + C05 cause
+detection + gate + C02's whole pass (`cycleB`) + the admission webhooks' `recall_memo` (`admission`).
 Tie (S): every processing cycle of closed-loop simulations (restarts, re-listings after 410, reconnects,
-edits before/during/after the resume cycle, label flip-flops) is replayed through `C14.step`.
+edits before/during/after the resume cycle, label flip-flops) is replayed through `C14.step`, every served admission
+request through `C14.admission`.
 """
 from __future__ import annotations
 
@@ -18,7 +20,8 @@ ID = "C14"
 LEVEL = "proof"
 STRENGTH = "partial"
 ENGINES = ["lean-model", "kopfsim"]
-TIE = "S: step refinement — each real processing cycle replayed through the Lean `C14.step` (memory flags, cause, gate, pass)"
+TIE = ("S: step refinement — each real processing cycle replayed through the Lean `C14.step` (memory flags, cause, gate, the whole pass "
+       "`C02.cycleB`), each served admission request through `C14.admission` (the object's memory before → after)")
 LEVEL_TEXT = ("Lean theorems over all event histories of one object in one process: resume_invoked_only_initial (never for a creation, "
               "never on an object being deleted without opt-in), not_for_new, after_fully_handled_never (re-listings/reconnects/later "
               "changes never repeat anything once the object is fully handled), and the at-most-once clause UNGUARDED: "
@@ -28,15 +31,23 @@ LEVEL_TEXT = ("Lean theorems over all event histories of one object in one proce
               "F9 and the stale-view re-run are regression theorems). First clause: eligible_selected (any lifecycle) and "
               "eligible_invoked (first attempt, all-at-once, unchanged object); completion over several passes is C03's subject. "
               "Third clause at the start-up: marked_listed_selected_iff_optin (an object found already marked and held: deletion cause, "
-              "a resuming handler selected iff it opted in and matches). NEGATIVE: admitted_first_never_resumed / admitted_first_witness — "
-              "the memory has a second creator (an admission request, `admission`), and if one is served before the listing event is "
-              "processed the object is never resumed in this process (open finding F10, replayed on the real code). "
+              "a resuming handler selected iff it opted in and matches). The memory has a second creator, an admission request (`admission`); "
+              "since /repo 755fd2f (finding F10, fixed) it leaves the flag undecided and the first PROCESSED event decides it (first_event_decides: "
+              "never undecided after a processed event, a decided flag never changes): runA_eq_run, "
+              "UNGUARDED — whatever admission requests are served for the object and whenever, the handlers invoked event by event are "
+              "those of the history without the requests (so every theorem over `run` holds with the webhooks in); "
+              "eligible_selected_admitted / eligible_invoked_admitted (an object that exists at the start is resumed at its listing "
+              "event after any number of requests); watched_first_never_resumed (an object first seen through ADDED/MODIFIED after "
+              "admission requests is never resumed: creation never mixes with resuming); admitted_first_never_resumed / "
+              "admitted_first_witness are REGRESSIONS about the pre-fix `admissionOld` (the witness is replayed on the real code and must pass). "
               "Model tied to the code per cycle (memory incl. resumed_handlers, cause, selection, invocations, records).")
 THEOREMS = [("Kopf.Props.C14", "Kopf.C14." + n) for n in [
     "resume_invoked_only_initial", "not_for_new", "after_fully_handled_never",
     "resumed_not_selected", "completed_never_again", "completed_never_again_run",
     "eligible_selected", "eligible_invoked", "suppressed_keeps_initial", "flipflop_regression", "stale_view_regression",
-    "marked_listed_selected_iff_optin", "free_step_nothing", "admitted_first_never_resumed", "admitted_first_witness"]]
+    "marked_listed_selected_iff_optin", "free_step_nothing",
+    "first_event_decides", "runA_eq_run", "eligible_selected_admitted", "eligible_invoked_admitted", "watched_first_never_resumed",
+    "admitted_first_never_resumed", "admitted_first_witness"]]
 RULE = ("seeded scenarios: objects handled by a first incarnation, then stop/kill + restart; 1-3 resume handlers (label filters, "
         "deleted opt-in, failures/retries) next to create/update/delete handlers; re-listings (history compaction + 410), "
         "stream reconnects, edits and label flip-flops before/during/after the resume cycle, deletions; one case = one processing "
@@ -44,8 +55,10 @@ RULE = ("seeded scenarios: objects handled by a first incarnation, then stop/kil
         "plus (white-box round): what happens while the operator is DOWN (deletion: objects found marked and held by the own / a foreign "
         "finalizer, own finalizer stripped, label flips, edits), registries in which EVERY handler is label-filtered (prematch fails in the "
         "middle of an open resuming cycle), the other ways a handler ends for good (retries= exhausted, errors=permanent/ignored, "
-        "sub-handlers through kopf.execute) followed by a record loss (label flip-flop, stale view), admission requests through the "
-        "operator's real serve_admission_request before/after the listing")
+        "sub-handlers through kopf.execute) followed by a record loss (label flip-flop, stale view), admission requests (UPDATE / DELETE / "
+        "CREATE, one or several) through the operator's real serve_admission_request: before the listing at the first start and at a "
+        "restart, later, for an object being created while the operator runs (CREATE review before it exists, UPDATE/DELETE before its "
+        "ADDED event is processed; with and without a last-handled annotation), followed by edits / flips / re-listings / deletions")
 TRUSTED = c02.TRUSTED + ["harness/props/sim_c14.py (fake webhook server that only keeps the webhookfn kopf binds; timeline op `admit`)",
                          "the oracle's reading of 'exists when the operator starts' = stored in the fake cluster before the incarnation's "
                          "start mark (cluster history), and of 'ran to completion' = returned / PermanentError / an error the declared "
@@ -56,10 +69,14 @@ ASSUMPTIONS = ["filters (`registries.match`) enter the model as the observed per
                "suppressed first cycle; for one-by-one/asap only selection (`eligible_selected` / `matching_selected`) is proved; "
                "the oracle's positive clause (every eligible object gets every matching resume handler invoked in the incarnation) "
                "covers all lifecycles on the generated histories; eventual completion is C03's subject",
-               "handler ids are unique among the resuming handlers (`hres`: every registration under the id is a resuming one); "
-               "a function stacked as @on.resume + @on.update under ONE id is outside the theorems (not generated either)",
-               "the memory of an object is created by its first processed event (`recall`) — except when an admission request came "
-               "first (`admission`, finding F10): the positive theorems start from `none`",
+               "handler ids are unique among the resuming handlers (`hres`: every registration under the id is a resuming one)",
+               "the memory of an object is created by its first processed event (`recall`) or by an admission request (`admission`: the two "
+               "callers of ResourceMemories.recall in /repo); the positive theorems start from `none` or from `admissions none reqs`",
+               "C14's step runs the whole pass C02.cycleB with `bound` read off the declarations (a registration under the id declared for "
+               "the cause's reason); ONE id stacked under @on.resume + @on.update/@on.delete is still not generated here and outside the "
+               "theorems (`hres`): kopf de-duplicates such registrations by (function, id) keeping the first in registry order, so the "
+               "selection, `bound`, `initial` and the filters would have to be modelled per registration, the shared scenario builder gives "
+               "every registration its own function, and the oracle tells resume invocations by the id (C02 generates update+delete stacks)",
                "timeout= on resuming handlers: the oracle's `final_call` judges only the sure case (the requested delay alone reaches "
                "the timeout); a time-out that depends on the time already spent is not counted as a completion by the oracle "
                "(the theorems cover every final outcome)",
@@ -332,20 +349,136 @@ def gen_shapes(rng: Any, i: int) -> dict:
 
 
 def gen_admission(rng: Any, i: int) -> dict:
-    """The other creator of an object's memory: an admission request (UPDATE / DELETE of an existing object) served
-    through the operator's real `serve_admission_request` — right when the webhook server comes up (before the listing
-    is processed), or later."""
-    handlers = [{"kind": "resume", "id": "r1", "script": [rng.choice(["ok", "ok", ["temp", 1.0]])], "default": "ok"},
-                {"kind": rng.choice(["validate", "mutate"]), "id": "v1"}]
+    """The other creator of an object's memory: admission requests (UPDATE / DELETE / CREATE) served through the
+    operator's real `serve_admission_request` — one or several; right when the webhook server comes up, i.e. before the
+    listing is processed (at the first start, or at a restart), or later; for an object that exists at the start (must be
+    resumed: /repo 755fd2f), and for an object that is being created while the operator runs — the request is served
+    before the ADDED event is processed (must NOT be resumed, even if it comes with a last-handled annotation, as an
+    object restored from an export does); followed by edits, re-listings, reconnects, deletions."""
+    variant = rng.choice(["startup", "startup", "restart", "creating", "creating"])
+    r1: dict[str, Any] = {"kind": "resume", "id": "r1", "script": [rng.choice(["ok", "ok", ["temp", 1.0]])], "default": "ok"}
+    if rng.random() < 0.3:
+        r1["opts"] = {"deleted": True}
+    handlers = [r1, {"kind": rng.choice(["validate", "mutate"]), "id": "v1"}]
+    if rng.random() < 0.3:
+        handlers.append({"kind": "resume", "id": "r2", "opts": {"labels": {"l": "1"}}, "default": "ok",
+                         "script": [rng.choice(["ok", ["temp", 2.0]])]})
     if rng.random() < 0.5:
         handlers.append({"kind": "update", "id": "u0", "script": ["ok"]})
-    when = rng.choice([0, 0, 0.5, 2.0])
-    tl: list[list] = [[when, "admit", "a", rng.choice(["UPDATE", "UPDATE", "DELETE"])]]
     if rng.random() < 0.4:
-        tl.append([when + rng.choice([1.0, 3.0]), "edit", "a", {"spec": {"x": 5}}])
-    return {"seed": i, "runner": "harness.props.sim_c14:run_scenario", "webhook": True,
-            "lifecycle": rng.choice(["asap", "all_at_once"]), "handlers": handlers, "objects": [_handled_object()],
-            "timeline": tl, "end": 25}
+        handlers.append({"kind": "create", "id": "c0", "script": ["ok"]})
+    if rng.random() < 0.3:
+        handlers.append({"kind": "delete", "id": "d0", "opts": {"optional": rng.random() < 0.5}, "script": ["ok"]})
+    rng.shuffle(handlers)
+    operation = lambda: rng.choice(["UPDATE", "UPDATE", "UPDATE", "DELETE", "CREATE"])
+    tl: list[list] = []
+    sc: dict[str, Any] = {"seed": i, "runner": "harness.props.sim_c14:run_scenario", "webhook": True, "variant": variant,
+                          "lifecycle": rng.choice(["asap", "all_at_once", "one_by_one"]), "handlers": handlers,
+                          "settings": {"execution.default_backoff": 1.0, "watching.reconnect_backoff": 0.125}}
+    name = "a"
+    if variant == "startup":
+        sc["objects"] = [_handled_object()]
+        t = rng.choice([0, 0, 0, 0.5, 2.0])
+        for _ in range(rng.choice([1, 1, 2, 3])):
+            tl.append([t, "admit", "a", operation()])
+    elif variant == "restart":
+        # handled by the first incarnation; the request is waiting when the second one's webhook server comes up
+        tl.append([1.0, "create", "a", {"spec": {"x": 1}, "metadata": {"labels": {"l": "1"}}}])
+        if rng.random() < 0.3:
+            tl.append([2.0, "admit", "a", operation()])
+        tl += [[8.0, rng.choice(["stop", "kill"])], [9.0, "start"]]
+        t = 9.0
+        for _ in range(rng.choice([1, 1, 2])):
+            tl.append([t, "admit", "a", operation()])
+    else:
+        # created while the operator runs; the request(s) come before the ADDED event is processed
+        sc["objects"] = [_handled_object("b")]
+        t = rng.choice([1.0, 2.0])
+        name = "n"
+        body = _handled_object("n")["body"] if rng.random() < 0.5 else {"spec": {"x": 1}, "metadata": {"labels": {"l": "1"}}}
+        if rng.random() < 0.4:
+            tl.append([t, "admit", "n", "CREATE"])      # the review of the creation itself: the object does not exist yet
+        tl.append([t, "create", "n", body])
+        for _ in range(rng.choice([1, 1, 2])):
+            tl.append([t, "admit", "n", rng.choice(["UPDATE", "UPDATE", "DELETE"])])
+        if rng.random() < 0.3:
+            tl.append([t, "admit", "b", operation()])
+    for _ in range(rng.choice([0, 1, 1, 2])):
+        t += rng.choice([0.015625, 0.03125, 0.25, 1.0, 3.0])
+        op = rng.choice(["edit", "edit", "flip", "relist", "reconnect", "delete", "admit", "admit"])
+        if op == "edit":
+            tl.append([t, "edit", name, {"spec": {"x": rng.randrange(2, 6)}}])
+        elif op == "flip":
+            tl.append([t, "edit", name, {"metadata": {"labels": {"l": rng.choice(["0", "1"])}}}])
+        elif op == "relist":
+            tl += [[t, "compact"], [t, "break", "410"]]
+        elif op == "reconnect":
+            tl.append([t, "break", rng.choice(["eof", "conn"])])
+        elif op == "delete":
+            tl += [[t, "admit", name, "DELETE"], [t, "delete", name]]
+        else:
+            tl.append([t, "admit", name, operation()])
+    sc["timeline"] = tl
+    sc["end"] = t + 25.0
+    return sc
+
+
+def gen_stacked_siblings(rng: Any, i: int) -> dict:
+    """Beside the resuming handlers, ONE id registered for two causes (`@kopf.on.update` + `@kopf.on.delete`, or
+    `@kopf.on.create` + `@kopf.on.update`): two handlers with one progress record. A retrying resume handler keeps the
+    cycle open while the cause changes (resume → update → delete), so that the record under the shared id carries the
+    other cause's purpose when its namesake is selected: since /repo f7d6401 the pass leaves it out (`C02.cycleB`, `bound`
+    read off the declarations) while the resuming handlers' records are re-purposed as before. (A stack that includes
+    @on.resume itself is not generated: see ASSUMPTIONS.)"""
+    kinds = rng.choice([["update", "delete"], ["update", "delete"], ["create", "update"], ["create", "update", "delete"]])
+    how = rng.choice(["ok", "ok", "perm", ["temp", 0.5], ["temp", 6.0]])
+    handlers: list[dict] = [{"kind": k, "id": "h", "opts": {}, "script": [how] if k == kinds[0] or rng.random() < 0.3 else [], "default": "ok"}
+                            for k in kinds]
+    handlers.append({"kind": "resume", "id": "r1", "opts": {"deleted": True} if rng.random() < 0.5 else {},
+                     "script": [["temp", rng.choice([3.0, 6.0])]] * rng.choice([1, 2, 3]), "default": "ok"})
+    if rng.random() < 0.5:
+        handlers.append({"kind": "resume", "id": "r2", "opts": {"deleted": True} if rng.random() < 0.3 else {}, "script": [], "default": "ok"})
+    rng.shuffle(handlers)
+    sc: dict[str, Any] = {"seed": i, "lifecycle": rng.choice(["asap", "one_by_one", "all_at_once"]), "handlers": handlers,
+                          "settings": {"execution.default_backoff": 1.0, "watching.reconnect_backoff": 0.125}}
+    tl: list[list] = []
+    if kinds[0] == "create":
+        # created while the operator runs (creation cause; a retrying creation sibling keeps that cycle open), then edited
+        # (/ deleted) while it is open
+        handlers.append({"kind": "create", "id": "c1", "script": [["temp", rng.choice([3.0, 6.0])]] * rng.choice([1, 2]), "default": "ok"})
+        t = 1.0
+        tl.append([t, "create", "a", {"spec": {"x": 0}, "metadata": {"labels": {"l": "1"}}}])
+        sc["objects"] = [_handled_object("b")]
+    else:
+        sc["objects"] = [_handled_object()]
+        t = 0.0
+    if rng.random() < 0.75:     # directed: the next cause(s) of the stack arrive while the sibling is still retrying
+        for k in kinds[1:] if kinds[0] == "create" else kinds:
+            t += rng.choice([0.25, 0.5, 1.0, 2.0])
+            tl.append([t, "edit", "a", {"spec": {"x": rng.randrange(2, 9)}}] if k == "update" else [t, "delete", "a"])
+    for _ in range(rng.choice([0, 1, 1, 2])):
+        t += rng.choice([0.25, 0.5, 1.0, 2.0, 4.0])
+        op = rng.choice(["edit", "edit", "delete", "relist", "restart"])
+        if op == "edit":
+            tl.append([t, "edit", "a", {"spec": {"x": rng.randrange(2, 9)}}])
+        elif op == "delete":
+            tl.append([t, "delete", "a"])
+        elif op == "relist":
+            tl += [[t, "compact"], [t, "break", "410"]]
+        else:
+            tl += [[t, rng.choice(["stop", "kill"])], [t + 1.0, "start"]]
+            t += 1.0
+    sc["timeline"] = tl
+    sc["end"] = t + 30.0
+    return sc
+
+
+def _mem(snap: dict | None, sort: bool = True) -> dict | None:
+    """`ResourceMemory` as the model reads it; `noticed_by_listing` is True / False / None (not known yet)."""
+    if snap is None:
+        return None
+    res = list(snap.get("resumed_handlers", []))
+    return {"noticed": snap["noticed_by_listing"], "fullyHandled": snap["fully_handled_once"], "resumed": sorted(res) if sort else res}
 
 
 def _decls(sc: dict) -> list[dict]:
@@ -546,7 +679,8 @@ def run(ctx: Ctx) -> None:
     gen(gen_down_ops, 81_000_000, max(40, n // 4))
     gen(gen_allfiltered, 82_000_000, max(16, n // 8))
     gen(gen_shapes, 83_000_000, max(42, n // 4))
-    gen(gen_admission, 84_000_000, max(6, n // 40))
+    gen(gen_admission, 84_000_000, max(30, n // 8))
+    gen(gen_stacked_siblings, 85_000_000, max(20, n // 12))
     for sc in scenarios:
         ctx.count("generator", sc["gen"])
     results = pool.run_many(scenarios, wall=40.0)
@@ -562,6 +696,19 @@ def run(ctx: Ctx) -> None:
         decls = _decls(sc)
         resume_ids = {d["id"] for d in decls if d["gate"]["initial"]}
         lifecycle = sc.get("lifecycle") or "asap"
+        # every served admission request: the object's memory right before → right after, through the model's `admission`
+        for mk in tr["marks"]:
+            if mk["what"] != "admit":
+                continue
+            if mk.get("error") or not mk.get("mem_seen") or "error" in (mk.get("mem_before") or {}) or "error" in (mk.get("mem_after") or {}):
+                ctx.count("admit", "not-compared:" + str(mk.get("error") or "memory not seen")[:60])
+                continue
+            mem0, mem1 = _mem(mk.get("mem_before")), _mem(mk.get("mem_after"))
+            ctx.case(key={"admit": mk["operation"], "mem": mem0}, nontrivial=mem0 is None or mem0["noticed"] is None)
+            ctx.count("admit", f"{mk['operation']}/{'unknown object' if mem0 is None else 'noticed=' + json.dumps(mem0['noticed'])}")
+            reqs.append(["C14.admission", {"mem": mem0, "create": mk["operation"] == "CREATE"}])
+            impls.append({"mem": mem1})
+            where.append({"scenario": sc, "admit": {k: mk.get(k) for k in ("t", "uid", "operation", "inc")}})
         for cyc in tr["cycles"]:
             if cyc.get("error") or cyc.get("cause") is None or cyc["mem_before"] is None and False:
                 continue
@@ -578,16 +725,14 @@ def run(ctx: Ctx) -> None:
             owned = [d["id"] for d in decls]
             req = ["C14.step", {
                 "decls": p["decls"] if p else decls,
-                "mem": None if mb is None else {"noticed": mb["noticed_by_listing"], "fullyHandled": mb["fully_handled_once"],
-                                                "resumed": mb.get("resumed_handlers", [])},
+                "mem": _mem(mb, sort=False),
                 "flags": flags, "matched": p["matched"] if p else [], "lifecycle": lifecycle,
                 "limits": p["limits"] if p else {}, "P": p["P"] if p else {},
                 "outcomes": {k: {f: v[f] for f in ("final", "delay", "error", "subrefs")} for k, v in ((p or {}).get("outcomes") or {}).items()},
                 "now": p["now"] if p else 0, "now1": (p["now1"] if p and p["now1"] is not None else (p["now"] if p else 0)),
                 "universe": owned}]
             ma = cyc["mem_after"]
-            impl = {"mem": None if ma is None else {"noticed": ma["noticed_by_listing"], "fullyHandled": ma["fully_handled_once"],
-                                                    "resumed": sorted(ma.get("resumed_handlers", []))},
+            impl = {"mem": _mem(ma),
                     "reason": cause["reason"],
                     "selected": p["selected"] if p else None,
                     "invoked": [[i["id"], i["retry"]] for i in cyc["invoked"] if i["id"] in owned],
@@ -595,9 +740,16 @@ def run(ctx: Ctx) -> None:
             sel_res = sorted(set(impl["selected"] or []) & resume_ids)
             shape = {"mem": req[1]["mem"], "flags": flags, "reason": cause["reason"], "sel_resume": len(sel_res),
                      "out": sorted((o["final"], o["error"]) for o in req[1]["outcomes"].values())}
+            if mb is not None and mb["noticed_by_listing"] is None:
+                ctx.count("undecided_memory_decided_by", "listing" if flags[0] else str(cyc["event_type"]))
             ctx.case(key=shape, nontrivial=bool(sel_res) or bool(mb and mb["noticed_by_listing"]),
                      sample={"seed": sc["seed"], "cycle": cyc["i"], "request": req[1], "impl": impl} if sel_res else None)
             ctx.count("reason", cause["reason"])
+            if p:   # how often the whole pass differs from the pass over all records: a namesake's record left out (f7d6401)
+                left = [d["id"] for d in p["decls"] if d["id"] in p["selected"] and d["gate"].get("reason") == cause["reason"]
+                        and (p["P"].get(d["id"]) or {}).get("purpose") not in (None, cause["reason"])]
+                if left:
+                    ctx.count("namesake_record_left_out", cause["reason"])
             ctx.count("memory", json.dumps(req[1]["mem"]))
             ctx.count("resume_selected", len(sel_res))
             reqs.append(req)
@@ -615,6 +767,9 @@ def run(ctx: Ctx) -> None:
         m = out[1]
         if m["mem"] is not None:
             m["mem"]["resumed"] = sorted(set(m["mem"]["resumed"]))
+        if req[0] == "C14.admission":
+            ctx.compare("C14 admission request", impl, {"mem": m["mem"]}, wh)
+            continue
         if m["reason"] not in ("create", "update", "delete", "resume") and impl["reason"] == m["reason"]:
             # the code selects no handlers at all for an informational cause (free/gone/noop): what `get_handlers` WOULD
             # give (asked by the observer, computed by the model's gate) is not a behaviour of the code
@@ -627,7 +782,7 @@ def run(ctx: Ctx) -> None:
 
 
 ALL_GENS = [(gen_scenario, 8), (gen_relist_midcycle, 2), (gen_stale_view, 1), (gen_down_ops, 3), (gen_allfiltered, 2),
-            (gen_shapes, 3), (gen_admission, 1)]
+            (gen_shapes, 3), (gen_admission, 3), (gen_stacked_siblings, 1)]
 
 
 def search(ctx: Ctx, broken: list) -> None:
